@@ -389,6 +389,7 @@ func vfRunWindowPuppet(t *testing.T, spec *vfSpec, res *vfRes) {
 		buf := a.maxReceiveBufferSize
 		win := a.payloadQueue.maxTSNOffset
 		r := vfNewRand(spec.Seed ^ 0x11)
+		r0 := vfNewRand(spec.Seed ^ 0x1f)
 		mode := spec.XS["mode"]
 		limit := spec.A.MaxReasm
 		kind := byte(vfCtData)
@@ -406,6 +407,25 @@ func vfRunWindowPuppet(t *testing.T, spec *vfSpec, res *vfRes) {
 			}
 
 			return vfDataVal(tsn, sid, uint16(seq), 53, data) //nolint:gosec
+		}
+		if il {
+			// An unordered message on a stream the target has never seen is skipped by an I-FORWARD-TSN that covers only
+			// its first fragment; the other fragment arrives afterwards (the sender had finished sending the message
+			// before it gave up). The target must not keep it: nothing can ever complete it.
+			a.lock.RLock()
+			cum0 := a.payloadQueue.cumulativeTSN
+			a.lock.RUnlock()
+			held0, _, _ := vfHeldBytes(a)
+			fwd := append(vfU32(cum0+1), 0, 99, 0, 1, 0, 0, 0, 0) // new cumulative TSN, then {sid 99, U flag, MID 0}
+			sim.net.inject(0, vfNewPacket(5000, 5000, a.myVerificationTag).chunk(vfCtIForwardTSN, 0, fwd).bytes(true), 0)
+			sim.quiesce()
+			sim.net.inject(0, vfNewPacket(5000, 5000, a.myVerificationTag).chunk(vfCtIData, 1|4, vfIDataVal(cum0+2, 99, 0, 1, vfRandBytes(r0, 190))).bytes(true), 0)
+			sim.quiesce()
+			held1, _, _ := vfHeldBytes(a)
+			res.count("c11_late_fragment_cases", 1)
+			if held1 != held0 {
+				res.violate("C11", "puppet/late-fragment-of-skipped-message", "an I-FORWARD-TSN skipped unordered MID 0 of a stream the endpoint did not know yet; the message's last fragment arrived afterwards and is held (%d bytes) although nothing can complete it", held1-held0)
+			}
 		}
 		base := uint32(spec.x("ptsn", 1000)) //nolint:gosec
 		nPackets := int(spec.x("packets", 400))
